@@ -1037,3 +1037,49 @@ func canonValue(v ssa.Value) ssa.Value {
 	}
 	return v
 }
+
+// pathBetweenThrough: is there a path from instruction a to instruction b (same function) on which some instruction
+// strictly between them satisfies pred?
+func pathBetweenThrough(a, b ssa.Instruction, pred func(ssa.Instruction) bool) bool {
+	if a.Parent() != b.Parent() {
+		return false
+	}
+	type st struct {
+		blk  *ssa.BasicBlock
+		idx  int
+		seen bool
+	}
+	start := st{a.Block(), instrIndex(a) + 1, false}
+	visited := map[st]bool{}
+	work := []st{start}
+	for len(work) > 0 {
+		s := work[len(work)-1]
+		work = work[:len(work)-1]
+		if visited[s] {
+			continue
+		}
+		visited[s] = true
+		flag := s.seen
+		reachedB := false
+		for i := s.idx; i < len(s.blk.Instrs); i++ {
+			in := s.blk.Instrs[i]
+			if in == b {
+				if flag {
+					return true
+				}
+				reachedB = true
+				break
+			}
+			if pred(in) {
+				flag = true
+			}
+		}
+		if reachedB {
+			continue
+		}
+		for _, succ := range s.blk.Succs {
+			work = append(work, st{succ, 0, flag})
+		}
+	}
+	return false
+}
